@@ -89,18 +89,18 @@ def run(ctx):
                 # a second, independent layout of the same configuration: same result (layout independence)
                 cases.append(('rendered', G.make_case(conf, rng, tag=tag + 'b', include_p=0.3), ('exact', exp), ''))
             if k % 2 == 0:
-                base = G.make_case(conf, rng, tag=tag + 'm', include_p=0.05)
+                base = G.make_case(conf, rng, tag=tag + 'm', include_p=0.05, allow_abs=False)
                 for cls, mc, line, mexp in G.mutants(rng, base):
                     cases.append(('mutant:' + cls, mc, ('err', mexp) if mexp else None, 'line %d' % line))
             if k % 6 == 0:
                 for j, (cls, c2, vexp) in enumerate(G.semantic_mutants(rng, conf)):
                     if (k // 6 + j) % 3 == 0 or thorough:
-                        cases.append(('invalid:' + cls, G.make_case(c2, rng, tag=tag + 's', include_p=0.05), ('exact', vexp), ''))
+                        cases.append(('invalid:' + cls, G.make_case(c2, rng, tag=tag + 's%d' % j, include_p=0.05), ('exact', vexp), ''))
         # every prefix of a few seeds; a prefix that loses the closing brace must be rejected
         nseed = 12 if thorough else 4
         for k in range(nseed):
             conf = G.gen_conf(rng, small=True)
-            base = G.make_case(conf, rng, tag='p%d' % k, include_p=0.1 if k % 2 else 0)
+            base = G.make_case(conf, rng, tag='p%d' % k, include_p=0.1 if k % 2 else 0, allow_abs=False)
             main = base['main']
             last = main.rindex('}')
             for i in range(len(main.encode('utf-8')) + 1):
@@ -165,8 +165,3 @@ def run(ctx):
     for i in (7, len(cases) // 2, len(cases) - 1):
         if 0 <= i < len(cases):
             ctx.sample({'stream': cases[i][0], 'file': cases[i][1]['main'][:300], 'impl': im[i][:200], 'model': m[i][:200]})
-    try:
-        import shutil
-        shutil.rmtree(G.ABS_BASE, ignore_errors=True)
-    except OSError:
-        pass
